@@ -439,7 +439,35 @@ func (s *SdcpbUpdateDedup) Updates() []*sdcpb.Update {
 
 func (d *Datastore) validatePath(ctx context.Context, p *sdcpb.Path) error {
 	_, err := d.schemaClient.GetSchemaSdcpbPath(ctx, p)
-	return err
+	if err != nil {
+		return err
+	}
+	// the schema lookup goes by the element names: the keys a path names have to be keys of the list they are given for
+	for i, pe := range p.GetElem() {
+		if len(pe.GetKey()) == 0 {
+			continue
+		}
+		rsp, err := d.schemaClient.GetSchemaSdcpbPath(ctx, &sdcpb.Path{Elem: p.GetElem()[:i+1]})
+		if err != nil {
+			return err
+		}
+		for name := range pe.GetKey() {
+			if !isKeyOf(name, rsp.GetSchema().GetContainer()) {
+				return status.Errorf(codes.InvalidArgument, "%q is not a key of %q", name, pe.GetName())
+			}
+		}
+	}
+	return nil
+}
+
+// isKeyOf reports whether the given name is one of the keys of the given list
+func isKeyOf(name string, list *sdcpb.ContainerSchema) bool {
+	for _, k := range list.GetKeys() {
+		if k.GetName() == name {
+			return true
+		}
+	}
+	return false
 }
 
 func (d *Datastore) WatchDeviations(req *sdcpb.WatchDeviationRequest, stream sdcpb.DataServer_WatchDeviationsServer) error {
